@@ -102,7 +102,7 @@ def run(ctx):
         ts, tv = match_table(ctx, sb), match_table(ctx, vb2)
         n = 0
         for pol in ('Basic128Rsa15', 'Basic256', 'Basic256Sha256', 'Aes128Sha256RsaOaep', 'Aes256Sha256RsaPss'):
-            ms = re.search(r'PKey::sign_(\w+)\(', ts.get(pol) or ''); mv = re.search(r'PKey::verify_(\w+)\(', tv.get(pol) or '')
+            ms = re.search(r'(?:PKey|^)::sign_(\w+)\(', ts.get(pol) or ''); mv = re.search(r'(?:PKey|^)::verify_(\w+)\(', tv.get(pol) or '')
             key = 'policy:' + pol
             n += 1
             if ms and mv and ms.group(1) == mv.group(1):
